@@ -86,7 +86,7 @@ func onErrorPathOnly(call ssa.Instruction) bool {
 				continue
 			}
 			n++
-			if mayBeNil(ret.Results[idx], map[ssa.Value]bool{}) {
+			if mayBeNil(retOperand(ret, idx), map[ssa.Value]bool{}) {
 				return false
 			}
 		}
